@@ -88,4 +88,9 @@ def toCCS (A : SpMat) : List Nat × List Nat × List Rat :=
   ((List.range (A.ncols + 1)).map fun j => (A.ents.filter fun e => e.col < j).length,
    A.ents.map (·.row), A.ents.map (·.val))
 
+/-- `partial=True` in the mixed products (`axpy`, `gemm`, `syrk` with a sparse output): the sparsity pattern of the output is kept and every
+stored entry `(r, c)` receives the value `D r c` of the full (dense) result -/
+def partialUpdate (C : SpMat) (D : Nat → Nat → Rat) : SpMat :=
+  { C with ents := C.ents.map fun e => { e with val := D e.row e.col } }
+
 end CvxVerif.Sparse
